@@ -156,6 +156,38 @@ def gen_dist(rng):
     return {"kind": kind, "k": k, "support": k + rng.choice([0.0, 0.5, 0.25]), "rate": r3(rng, 0.1, 12)}
 
 
+def edge_cases():
+    """boundary parameters the validators accept (deterministic, run on every tier):
+    Poisson rate exactly 0 (the point mass at 0) at k = 0 and k >= 1, integer and fractional support;
+    Normal support exactly at loc and far in both tails (cdf exactly 0 / 1 in binary64); LogNormal support
+    at exp(loc) and near 0; mean/variance targets with variance 0; small and large Poisson rates."""
+    out = []
+    for k in (0, 1, 2, 5, 13):
+        for frac in (0.0, 0.5):
+            out.append({"kind": "poisson", "k": k, "support": k + frac, "rate": 0.0})
+    for rate in (1e-9, 1e-3, 60.0, 200.0):
+        for k in (0, 1, 40):
+            out.append({"kind": "poisson", "k": k, "support": float(k), "rate": rate})
+    for loc, scale in ((0.0, 1.0), (1.3, 0.7), (-2.75, 3.0), (0.1, 1e-3)):
+        out.append({"kind": "normal", "x": loc, "loc": loc, "scale": scale})
+        for z in (-40.0, -12.0, 12.0, 40.0):
+            out.append({"kind": "normal", "x": loc + z * scale, "loc": loc, "scale": scale})
+    for loc, scale in ((0.0, 1.0), (0.5, 0.25), (-1.0, 1.2)):
+        out.append({"kind": "lognormal", "x": math.exp(loc), "loc": loc, "scale": scale})
+        for x in (1e-300, 1e-100, 1e-12, 1e12, 1e100):
+            if abs((math.log(x) - loc) / scale) >= 12:
+                out.append({"kind": "lognormal", "x": x, "loc": loc, "scale": scale})
+    for m in (2.0, 0.3):
+        out.append({"kind": "normal_mv", "m": m, "v": 0.0})
+        out.append({"kind": "normal_mv", "m": -m, "v": 0.0})
+        out.append({"kind": "lognormal_mv", "m": m, "v": 0.0})
+    out.append({"kind": "quad_poisson", "rate": 0.0})
+    out.append({"kind": "quad_poisson", "rate": 1e-6})
+    out.append({"kind": "quad_cont", "dist": "normal", "loc": 0.0, "scale": 1e-3})
+    out.append({"kind": "quad_cont", "dist": "lognormal", "loc": -1.0, "scale": 0.05})
+    return out
+
+
 def gen_quad(rng):
     out = []
     for _ in range(3):
@@ -170,7 +202,7 @@ def gen_quad(rng):
 
 def gen_cases(rng, tier):
     mult = 1 if tier == "quick" else 12
-    cases = []
+    cases = edge_cases()
     cases += [gen_ie(rng) for _ in range(130 * mult)]
     cases += [gen_isi(rng, malformed=(i % 12 == 11)) for i in range(90 * mult)]
     cases += [gen_vp(rng) for _ in range(45 * mult)]
@@ -288,6 +320,10 @@ def near(x, y, scale=1.0, rel=1e-9):
     return abs(x - y) <= rel * max(scale, abs(x), abs(y))
 
 
+def slog(x):
+    return -math.inf if x == 0 else math.log(x)
+
+
 def vp_reference(t0, t1, cost):
     """textbook Victor-Purpura distance: minimum over alignments (memoised recursion over prefixes);
     cost inf = the documented limit n+m (shifts never used)."""
@@ -402,21 +438,26 @@ def oracle(case, atoms, outs):
         return fails
     if k in ("normal", "lognormal"):
         pdf, lpdf, cdf, lcdf, mean, var = [F.dec_float(x) for x in outs[0]["ok"]]
-        if not near(math.exp(lpdf), pdf, 0.0):
+        if any(v != v for v in (pdf, lpdf, cdf, lcdf, mean, var)):
+            return [fail(case, "nan_at_valid_parameters", k, {"values": [pdf, lpdf, cdf, lcdf, mean, var]})]
+        if not near(math.exp(lpdf), pdf, 0.0) and abs(math.exp(lpdf) - pdf) > 1e-300:
             fails.append(fail(case, "exp_logpdf_eq_pdf", k, {"pdf": pdf, "logpdf": lpdf}))
-        if not near(lcdf, math.log(cdf), 1e-3):
+        if not near(lcdf, slog(cdf), 1e-3):
             fails.append(fail(case, "logcdf_eq_log_cdf", k, {"cdf": cdf, "logcdf": lcdf}))
         if not (0 <= cdf <= 1 and pdf >= 0):
             fails.append(fail(case, "range", k, {"cdf": cdf, "pdf": pdf}))
-        # closed forms of the density, written independently (math module)
+        # closed forms of the density, written independently (math module); the cdf is compared absolutely
+        # (0.5 * (1 + erf) has absolute, not relative, accuracy in the lower tail)
         x, loc, scale = case["x"], case["loc"], case["scale"]
         z = ((x if k == "normal" else math.log(x)) - loc) / scale
         ref = math.exp(-0.5 * z * z) / (scale * math.sqrt(2 * math.pi)) / (1 if k == "normal" else x)
         refc = 0.5 * math.erfc(-z / math.sqrt(2))
-        if not near(pdf, ref, 0.0, 1e-8):
+        if not near(pdf, ref, 0.0, 1e-8) and abs(pdf - ref) > 1e-300:
             fails.append(fail(case, "pdf_closed_form", k, {"pdf": pdf, "reference": ref}))
-        if not near(cdf, refc, 0.0, 1e-8):
+        if abs(cdf - refc) > 1e-12 + 1e-8 * refc * (abs(z) <= 3):
             fails.append(fail(case, "cdf_closed_form", k, {"cdf": cdf, "reference": refc}))
+        if z == 0 and cdf != 0.5:
+            fails.append(fail(case, "cdf_at_median", k, {"cdf": cdf}))
         return fails
     if k in ("normal_mv", "lognormal_mv"):
         loc, scale, mean, var = [F.dec_float(x) for x in outs[0]["ok"]]
@@ -424,17 +465,24 @@ def oracle(case, atoms, outs):
             fails.append(fail(case, "params_mv_roundtrip", k[:-3], {"mean": mean, "variance": var, "loc": loc, "scale": scale}))
         return fails
     if k == "poisson":
-        pmf, lpmf, cdf, lcdf, mean, var = [F.dec_float(x) for x in outs[0]["ok"]]
+        pmf, lpmf, _, _, cdf, lcdf, mean, var = [F.dec_float(x) for x in outs[0]["ok"]]
         kk, rate = case["k"], case["rate"]
-        if not near(math.exp(lpmf), pmf, 0.0):
+        if any(v != v for v in (pmf, lpmf, cdf, lcdf, mean, var)):
+            return [fail(case, "nan_at_valid_parameters", k, {"values": [pmf, lpmf, cdf, lcdf, mean, var]})]
+
+        def refpmf(j):      # rate = 0 is the point mass at 0 (Poisson.validate accepts it)
+            if rate == 0:
+                return 1.0 if j == 0 else 0.0
+            return math.exp(j * math.log(rate) - rate - math.lgamma(j + 1))
+        if not near(math.exp(lpmf) if lpmf != -math.inf else 0.0, pmf, 0.0):
             fails.append(fail(case, "exp_logpmf_eq_pmf", k, {"pmf": pmf, "logpmf": lpmf}))
-        ref = math.exp(kk * math.log(rate) - rate - math.lgamma(kk + 1))
-        if not near(pmf, ref, 0.0, 1e-8):
+        ref = refpmf(kk)
+        if not near(pmf, ref, 0.0, 1e-8) and abs(pmf - ref) > 1e-300:
             fails.append(fail(case, "pmf_closed_form", k, {"pmf": pmf, "reference": ref}))
-        refc = sum(math.exp(j * math.log(rate) - rate - math.lgamma(j + 1)) for j in range(0, int(math.floor(case["support"])) + 1))
+        refc = sum(refpmf(j) for j in range(0, int(math.floor(case["support"])) + 1))
         if not near(cdf, refc, 0.0, 1e-8):
             fails.append(fail(case, "cdf_is_partial_sum_of_pmf", k, {"cdf": cdf, "reference": refc}))
-        if not near(lcdf, math.log(cdf), 1e-3):
+        if not near(lcdf, slog(cdf), 1e-3):
             fails.append(fail(case, "logcdf_eq_log_cdf", k, {"cdf": cdf, "logcdf": lcdf}))
         if mean != rate or var != rate:
             fails.append(fail(case, "stated_moments", k, {"mean": mean, "var": var}))
@@ -445,33 +493,35 @@ def oracle(case, atoms, outs):
         if not near(o["total"], 1.0, 1.0, 1e-8):
             fails.append(fail(case, "pdf_integrates_to_one", part, {"integral": o["total"]}))
         for p in o["parts"]:
-            if abs(p["integral"] - p["cdf_diff"]) > 1e-8:
+            if not (abs(p["integral"] - p["cdf_diff"]) <= 1e-8):
                 fails.append(fail(case, "pdf_integrates_to_cdf", part, p))
                 break
         if not near(o["mean_quad"], o["mean"], 1.0, 1e-7):
             fails.append(fail(case, "mean_matches_density", part, {"quadrature": o["mean_quad"], "stated": o["mean"]}))
         if not near(o["var_quad"], o["var"], 1.0, 1e-7):
             fails.append(fail(case, "variance_matches_density", part, {"quadrature": o["var_quad"], "stated": o["var"]}))
-        if o["max_exp_logpdf_err"] > 1e-9:
+        if not (o["max_exp_logpdf_err"] <= 1e-9):
             fails.append(fail(case, "exp_logpdf_eq_pdf", part, {"max_rel_err": o["max_exp_logpdf_err"]}))
-        if o["max_logcdf_err"] > 1e-9:
+        if not (o["max_logcdf_err"] <= 1e-9):
             fails.append(fail(case, "logcdf_eq_log_cdf", part, {"max_abs_err": o["max_logcdf_err"]}))
         if not (o["cdf_lo"] < 1e-12 and o["cdf_hi"] > 1 - 1e-12 and o["cdf_monotone"]):
             fails.append(fail(case, "cdf_limits_monotone", part, {"lo": o["cdf_lo"], "hi": o["cdf_hi"]}))
         return fails
     if k == "quad_poisson":
         o = outs[0]["ok"]
+        if not o["valid"]:
+            return []          # parameters rejected by Poisson.validate: no claim
         if not near(o["total"], 1.0, 1.0, 1e-9):
-            fails.append(fail(case, "pmf_sums_to_one", "poisson", {"sum": o["total"]}))
-        if o["max_cdf_err"] > 1e-9:
+            fails.append(fail(case, "pmf_sums_to_one", "poisson", {"sum": o["total"], "rate": case["rate"]}))
+        if not (o["max_cdf_err"] <= 1e-9):
             fails.append(fail(case, "pmf_sums_to_cdf", "poisson", {"max_err": o["max_cdf_err"]}))
         if not near(o["mean_sum"], o["mean"], 1.0, 1e-9):
             fails.append(fail(case, "mean_matches_density", "poisson", {"sum": o["mean_sum"], "stated": o["mean"]}))
         if not near(o["var_sum"], o["var"], 1.0, 1e-9):
             fails.append(fail(case, "variance_matches_density", "poisson", {"sum": o["var_sum"], "stated": o["var"]}))
-        if o["max_exp_logpmf_err"] > 1e-12:
+        if not (o["max_exp_logpmf_err"] <= 1e-12):
             fails.append(fail(case, "exp_logpmf_eq_pmf", "poisson", {"max_err": o["max_exp_logpmf_err"]}))
-        if o["max_logcdf_err"] > 1e-9:
+        if not (o["max_logcdf_err"] <= 1e-9):
             fails.append(fail(case, "logcdf_eq_log_cdf", "poisson", {"max_err": o["max_logcdf_err"]}))
         if o["cdf_half"] != o["cdf_two"]:
             fails.append(fail(case, "cdf_floor_of_support", "poisson", {"cdf(2.5)": o["cdf_half"], "cdf(2)": o["cdf_two"]}))
